@@ -20,9 +20,18 @@ def content_dispatch(prog: Program):
     that arm and fallthrough is the final else body (or None)."""
     fi = rule_method(prog, "_validate_content")
     loop = None
+
+    def is_cr(e):
+        return (isinstance(e, ast.Subscript) and isinstance(e.slice, ast.Constant) and e.slice.value == "content_rules") or \
+               (isinstance(e, ast.Attribute) and e.attr == "content_rules")
+    locals_cr = {n.targets[0].id for n in ast.walk(fi.node) if isinstance(n, ast.Assign) and len(n.targets) == 1
+                 and isinstance(n.targets[0], ast.Name) and is_cr(n.value)}
     for n in ast.walk(fi.node):
         if isinstance(n, ast.For) and isinstance(n.target, ast.Name):
             it = n.iter
+            if isinstance(it, ast.Name) and it.id in locals_cr:
+                loop = n
+                break
             if isinstance(it, ast.Subscript) and isinstance(it.slice, ast.Constant) and it.slice.value == "content_rules":
                 loop = n
                 break
